@@ -11,8 +11,8 @@ ID = "C16"
 TECHNIQUE = ("bounded-exhaustive enumeration of operator-instance sequences built from 12 tree templates (name at one "
              "or two depths, nested same-name operators, missing kernels, copies, equal-start kernels) x operator name "
              "x min_pattern_len x top_k, real get_frequent_cuda_kernel_sequences vs recount from the reference tree")
-RULE = ("every sequence of <=L top-level instances drawn (with repetition) from 12 templates over operator names "
-        "{aten::A, aten::B} and activities {kern_x, kern_y, memcpy}; evaluated for operator in {aten::A, aten::B, "
+RULE = ("every sequence of <=L top-level instances drawn (with repetition) from 14 templates over operator names "
+        "{aten::A, aten::B} and activities {kern_x, kern_y, memcpy, a long kernel, a zero-duration kernel}; evaluated for operator in {aten::A, aten::B, "
         "absent name} x min_pattern_len in {0,1,2,3} x top_k in {1,5}; length-2 sequences also with the file order reversed and in a session slice (the same object ran a critical-path analysis | decode_symbol_ids | the other summary getters before); a variant wraps everything in profiler-step "
         "annotations, another analyses it as rank 1 of a two-rank job. non-trivial = at least two patterns, or an instance excluded by depth or by min_pattern_len")
 ASSUMPTIONS = [
@@ -24,6 +24,7 @@ ASSUMPTIONS = [
 E0 = 1_700_000_000_000_000
 A, B = "aten::A", "aten::B"
 KX, KY, MC = "kern_x", "kern_y", "Memcpy DtoD (Device -> Device)"
+KZ = "kern_zero"  # activity recorded with a duration of 0
 KB = "kern_big"   # long activity: per-operator duration sums beyond any 8-bit range
 # template = nested list: (name, [children]) where a child is a template or ("L", kernel name | None, kernel_start_offset)
 TEMPLATES = [
@@ -39,6 +40,8 @@ TEMPLATES = [
     (B, [("L", KY, 2), ("L", KX, 20)]),
     (A, [("L", KX, 2), (B, [("L", KY, 2), ("L", KX, 3)])]),
     (A, [("L", KB, 2), ("L", KB, 400)]),
+    (A, [("L", KZ, 2)]),                                   # the only activity has zero duration
+    (A, [("L", KX, 2), ("L", KZ, 2), ("L", KY, 2)]),       # three activities, one of zero duration (min_pattern_len=3)
 ]
 TIE_TEMPLATE = 7
 
@@ -91,7 +94,7 @@ def build(world) -> List[Dict[str, Any]]:
                 if c[1] == MC:
                     evs.append(kineto.memcpy(MC, ts + c[2], 2, 9, state["corr"], bw=1.0))
                 elif c[1] is not None:
-                    evs.append(kineto.kernel(c[1], ts + c[2], {KX: 3, KY: 4, KB: 300}[c[1]], 7, state["corr"]))
+                    evs.append(kineto.kernel(c[1], ts + c[2], {KX: 3, KY: 4, KB: 300, KZ: 0}[c[1]], 7, state["corr"]))
                 state["corr"] += 1
                 state["t"] += 4
             else:
